@@ -19,11 +19,8 @@ class Params:
         self.ver = ver if isinstance(ver, z3.ExprRef) else z3.IntVal(ver)
 
 
-class LossVal:
-    """jax scalar returned by step: .item() gives the Python float"""
-
-    def __init__(self, e):
-        self.e = e
+class LossVal(SV):
+    """jax scalar returned by step: .item() gives the Python float; usable directly in arithmetic / comparisons"""
 
     def item(self):
         return SV(self.e)
